@@ -342,7 +342,11 @@ class Run(ExtraOps):
         if isinstance(out.engine, sql.Engine):
             rows = w.run_sql(out, reverse=reverse)
         else:
+            from .ops_extra import uncached_iteration_mats
+
+            mats = uncached_iteration_mats(out)
             rows = [{t.qualified_name: v for t, v in r.items()} for r in out.engine.execute(out)]
+            self.check_cached(ent, mats)
         return rows, out
 
     def check_rows(self, ent, rows, what="rows_mismatch", relcols=None):
